@@ -2,9 +2,15 @@
 //! in a fresh process: the REAL tiny-std operation under the casekit handler, with the descriptor table
 //! read before the operation, after it (result still alive), and after the result was dropped.
 //!
+//! `<scenario>` may carry the state of the descriptor table at entry: `@<subset of 012>` (those numbers are
+//! free, the operation's creations land on them) or `@lim<k>` (only k numbers left: a real EMFILE).  The
+//! harness keeps its own channels on high numbers (result line: a dup of stdout >= 240).
+//!
 //! Output of one case (one line):
 //!   out=<ok|none|err:<errno>|err:nocode|err:timeout|panic> trace=<name>:<v|e><n>[!],.. handed=<n>
 //!   leaked=<n> dangling=<n> stolen=<n> foreign=<n> dbl=<n> residue=<n> dropbad=<n> child=<trace|-> ents=<..|->
+//!   entry=<spec|-> replaced=<n> tab=<numbers open at entry, not the operation's> own=<numbers given to it>
+//!   nums=<numbers its creations received, in order> fin=<numbers open after it returned>
 #![allow(clippy::all)]
 mod casekit;
 use casekit as kit;
@@ -560,7 +566,59 @@ fn sockaddr_port(_a: &SocketAddress) -> u16 {
     s[i..].trim_end_matches(|c: char| !c.is_ascii_digit()).parse().unwrap()
 }
 
-fn case_main(name: &str, faults: &str) {
+/// The state of the descriptor table the operation is entered with (`<scenario>@<spec>`):
+///   `@<subset of 012>`: those standard descriptors are FREE at entry (closed after the scenario was
+///                       set up), so the kernel hands these numbers to the operation's next creations;
+///   `@lim<k>`:          RLIMIT_NOFILE is lowered so that exactly `k` more numbers can be handed out: the
+///                       (k+1)-th creation fails with a real EMFILE.
+struct Entry {
+    spec: String,
+    close: Vec<i32>,
+    lim: Option<usize>,
+}
+
+fn parse_entry(full: &str) -> Option<(&str, Entry)> {
+    let (name, spec) = match full.split_once('@') {
+        None => return Some((full, Entry { spec: "-".into(), close: vec![], lim: None })),
+        Some(x) => x,
+    };
+    if let Some(k) = spec.strip_prefix("lim") {
+        if k.len() != 1 {
+            return None;
+        }
+        let k: usize = k.parse().ok()?;
+        return Some((name, Entry { spec: spec.into(), close: vec![], lim: Some(k) }));
+    }
+    let mut close = vec![];
+    for c in spec.chars() {
+        let d = c.to_digit(10)? as i32;
+        if d > 2 || close.last().map_or(false, |l| *l >= d) {
+            return None;
+        }
+        close.push(d);
+    }
+    if close.is_empty() {
+        return None;
+    }
+    Some((name, Entry { spec: spec.into(), close, lim: None }))
+}
+
+fn join(v: &[i32]) -> String {
+    if v.is_empty() {
+        "-".to_string()
+    } else {
+        v.iter().map(|x| x.to_string()).collect::<Vec<_>>().join(",")
+    }
+}
+
+fn case_main(full: &str, faults: &str) {
+    let (name, entry) = match parse_entry(full) {
+        Some(x) => x,
+        None => {
+            println!("bad-op");
+            return;
+        }
+    };
     let faults = match kit::parse_faults(faults) {
         Some(f) => f,
         None => {
@@ -576,8 +634,31 @@ fn case_main(name: &str, faults: &str) {
             return;
         }
     };
+    // the harness's own channels live on high numbers: the result line never goes through 0/1/2
+    let outfd = kit::raw_dup_high(1, 240).expect("dup of the result channel");
     let (cr, cw) = kit::raw_pipe_cloexec();
     let op = std::mem::replace(&mut su.op, Box::new(|| nothing("".into())));
+    // ---- entry state of the descriptor table
+    for fd in &entry.close {
+        kit::raw_close(*fd);
+    }
+    // a witness (dup, high, CLOEXEC) of every descriptor that is not the operation's: after the operation the
+    // number must still name the same open file description as its witness
+    let wit: Vec<(i32, i32)> = kit::open_fds()
+        .into_iter()
+        .filter(|x| !su.owned_in.contains(x))
+        .filter_map(|x| kit::raw_dup_high(x, 100).map(|w| (x, w)))
+        .collect();
+    let limits = kit::raw_get_nofile();
+    if let Some(k) = entry.lim {
+        let open = kit::open_fds();
+        let free: Vec<usize> = (0..kit::MAXFD).filter(|n| !open.contains(&(*n as i32))).collect();
+        let soft = free.get(k).copied().unwrap_or(kit::MAXFD) as u64;
+        if !kit::raw_set_nofile(soft, limits.1) {
+            kit::raw_write(outfd, "bad-op\n");
+            return;
+        }
+    }
     let before = kit::open_fds();
     kit::begin(faults, cw);
     let res = std::panic::catch_unwind(std::panic::AssertUnwindSafe(op));
@@ -588,7 +669,15 @@ fn case_main(name: &str, faults: &str) {
         kit::raw_exit(0);
     }
     let log = kit::end();
+    if entry.lim.is_some() {
+        kit::raw_set_nofile(limits.0, limits.1);
+    }
     let after = kit::open_fds();
+    // identity, not number: a foreign descriptor that was closed and whose number was taken again
+    let replaced = wit.iter().filter(|(x, w)| after.contains(x) && !kit::same_file(*x, *w)).count();
+    for (_, w) in &wit {
+        kit::raw_close(*w);
+    }
     kit::raw_close(cw);
     let (out, handed, keep, raw_close) = match res {
         Ok(o) => (o.out, o.handed, Some(o.keep), o.raw_close),
@@ -605,10 +694,12 @@ fn case_main(name: &str, faults: &str) {
     // trace-level discipline: every close must hit a descriptor the operation created (or was given) and still holds
     let mut own: Vec<i32> = su.owned_in.clone();
     let mut closed: Vec<i32> = vec![];
+    let mut nums: Vec<i32> = vec![];
     let (mut foreign, mut dbl) = (0, 0);
     for r in &log {
         for c in kit::created(r) {
             own.push(c);
+            nums.push(c);
             closed.retain(|x| *x != c);
         }
         if let Some(c) = kit::released(r) {
@@ -622,8 +713,6 @@ fn case_main(name: &str, faults: &str) {
             }
         }
     }
-    // in-progress streams / consumed inputs: a private descriptor that the operation was given shows as foreign
-    // only if it existed before and was not declared; declared ones are in owned_in.
     let trace: Vec<String> = log.iter().map(kit::res_str).collect();
     // phase 2: drop what was handed out
     kit::begin(vec![], -1);
@@ -634,7 +723,7 @@ fn case_main(name: &str, faults: &str) {
     let dlog = kit::end();
     let dropbad = dlog.iter().filter(|r| r.nr == sc::nr::CLOSE && kit::is_err(r.ret)).count();
     let after2 = kit::open_fds();
-    let residue = after2.iter().filter(|x| !before.contains(x) || su.owned_in.contains(x)).count();
+    let residue = after2.iter().filter(|x| (!before.contains(x) || su.owned_in.contains(x)) && !wit.iter().any(|(_, w)| w == *x)).count();
     let child = kit::raw_read_all(cr);
     let child: Vec<&str> = child.lines().collect();
     if su.reap {
@@ -649,20 +738,33 @@ fn case_main(name: &str, faults: &str) {
             }
         }
     }
-    println!(
-        "out={} trace={} handed={} leaked={} dangling={} stolen={} foreign={} dbl={} residue={} dropbad={} child={} ents={}",
-        out,
-        if trace.is_empty() { "-".to_string() } else { trace.join(",") },
-        n_handed,
-        leaked,
-        dangling,
-        stolen,
-        foreign,
-        dbl,
-        residue,
-        dropbad,
-        if child.is_empty() { "-".to_string() } else { child.join(",") },
-        su.ents
+    // the tables, for the model's number-level view: `tab` = what was open at entry and is not the operation's,
+    // `own` = the numbers it was given, `nums` = the numbers its successful creations received, in order,
+    // `fin` = what is open when it has returned
+    let tab: Vec<i32> = before.iter().copied().filter(|x| !su.owned_in.contains(x)).collect();
+    kit::raw_write(
+        outfd,
+        &format!(
+            "out={} trace={} handed={} leaked={} dangling={} stolen={} foreign={} dbl={} residue={} dropbad={} child={} ents={} entry={} replaced={} tab={} own={} nums={} fin={}\n",
+            out,
+            if trace.is_empty() { "-".to_string() } else { trace.join(",") },
+            n_handed,
+            leaked,
+            dangling,
+            stolen,
+            foreign,
+            dbl,
+            residue,
+            dropbad,
+            if child.is_empty() { "-".to_string() } else { child.join(",") },
+            su.ents,
+            entry.spec,
+            replaced,
+            join(&tab),
+            join(&su.owned_in),
+            join(&nums),
+            join(&after)
+        ),
     );
     drop(su.guards);
     let _ = std::fs::remove_dir_all(format!("{}/c12-{}", std::env::temp_dir().display(), std::process::id()));
